@@ -21,6 +21,9 @@ R = E.R
 def run(ctx):
     rng = ctx.rng
     zs = [0, 1, 2, 127, 128, 254, 255, 256, 257, 258, 511, 2 ** 64, R - 2, R - 1] + [rng.randrange(R) for _ in range(ctx.n(4, 200))]
+    # points with structured limbs: low word in the domain but high words set; small INTERNAL (Montgomery) representation
+    rinv = pow(1 << 256, -1, R)
+    zs += [2 ** 64 + 5, 2 ** 128 + 255, 3 * 2 ** 192 + 17, 7 * rinv % R, 255 * rinv % R, rng.randrange(1, 256) * rinv % R]
     lines, cls = [], []
     kinds = ["z", "c", "u", "u255", "s", "s2", "r"]
     reps = 1 if ctx.quick() else 8
